@@ -89,6 +89,26 @@ namespace CDNS {
         explicit BlockTable() {}
 
         /**
+         * @brief Copy constructor. The index of the copy must refer to the copy's own items,
+         * not to the items of the source table.
+         */
+        BlockTable(const BlockTable& other) : items_(other.items_) {
+            rebuild_indexes();
+        }
+
+        /**
+         * @brief Assignment operator. The index of the assigned-to table is rebuilt so that it refers
+         * to its own items, not to the items of the source table.
+         */
+        BlockTable& operator=(const BlockTable& rhs) {
+            if (this != &rhs) {
+                items_ = rhs.items_;
+                rebuild_indexes();
+            }
+            return *this;
+        }
+
+        /**
          * @brief Find if a key value is in the list
          * 
          * @param key the key value to search for.
@@ -209,6 +229,16 @@ namespace CDNS {
         }
 
     private:
+        /**
+         * @brief Rebuild the key -> index mapping from the stored items (first of equal keys wins)
+         */
+        void rebuild_indexes()
+        {
+            indexes_.clear();
+            for ( CDNS::index_t i = 0; i < items_.size(); ++i )
+                indexes_.emplace(KeyRef<K>(items_[i].key()), i);
+        }
+
         /**
          * @brief Record the key to the latest item in the vector.
          * 
